@@ -60,6 +60,8 @@ type hTask struct {
 	Status    bool
 	Prompt    bool
 	Dir       bool // dir: work/<id> (does not exist before the first real run)
+	Inc       bool // the task lives in inc/Taskfile.yml, included as namespace "inc" (name inc:<id>)
+	ShVar     bool // task-level dynamic variable (evaluated whenever the task is compiled, also by queries)
 	Call      bool // one cmds entry calls helper task chk-<id>, whose precondition fails while ctl/failcall-<id> exists
 	Dep       int  // -1 or index of the dependency
 }
@@ -116,6 +118,12 @@ func genHProj(ch *vs.Choices, prop string) *hProj {
 		t.Prompt = ch.Bool(1, 5)
 		t.Dir = ch.Bool(1, 5)
 		t.Call = ch.Bool(1, 3) || (prop == "C12" && ch.Bool(1, 2))
+		t.ShVar = ch.Bool(1, 3)
+		if ch.Bool(1, 4) {
+			t.Inc = true
+			t.Name = "inc:" + t.ID
+			t.Call = false // the helper lives in the root file
+		}
 		if i > 0 && ch.Bool(1, 3) {
 			t.Dep = ch.Draw(i)
 		}
@@ -124,8 +132,13 @@ func genHProj(ch *vs.Choices, prop string) *hProj {
 		}
 		p.Tasks = append(p.Tasks, t)
 	}
+	for _, t := range p.Tasks {
+		if t.Dep >= 0 && t.Inc && !p.Tasks[t.Dep].Inc {
+			t.Dep = -1
+		}
+	}
 	// state-file name collisions: "x:y" and "x-y", or two tasks with the same label
-	if n >= 2 && ch.Bool(1, 5) {
+	if n >= 2 && ch.Bool(1, 5) && !p.Tasks[0].Inc && !p.Tasks[1].Inc {
 		p.Tasks[0].Name, p.Tasks[1].Name = "col:x", "col-x"
 		p.Tasks[0].Label, p.Tasks[1].Label = "", ""
 		p.Tasks[1].Sources = p.Tasks[0].Sources
@@ -133,58 +146,27 @@ func genHProj(ch *vs.Choices, prop string) *hProj {
 	return p
 }
 
-func (p *hProj) YAML() string {
+// Files renders the project: the root Taskfile and, if some tasks live there, inc/Taskfile.yml.
+func (p *hProj) Files() map[string]string {
+	hasInc := false
+	for _, t := range p.Tasks {
+		if t.Inc {
+			hasInc = true
+		}
+	}
 	var sb strings.Builder
 	sb.WriteString("version: '3'\nsilent: true\n")
 	if p.FileMethod != "" {
 		fmt.Fprintf(&sb, "method: %s\n", p.FileMethod)
 	}
+	if hasInc {
+		sb.WriteString("includes:\n  inc: ./inc\n")
+	}
 	sb.WriteString("tasks:\n")
 	for _, t := range p.Tasks {
-		fmt.Fprintf(&sb, "  %s:\n    desc: task %s\n", yqH(t.Name), t.ID)
-		if t.Label != "" {
-			fmt.Fprintf(&sb, "    label: %s\n", t.Label)
+		if !t.Inc {
+			p.renderTask(&sb, t)
 		}
-		if t.Method != "" {
-			fmt.Fprintf(&sb, "    method: %s\n", t.Method)
-		}
-		if t.Prompt {
-			fmt.Fprintf(&sb, "    prompt: PROMPT-%s\n", t.ID)
-		}
-		pre := ""
-		if t.Dir {
-			// the task runs in its own (initially missing) directory; everything is addressed from the root
-			fmt.Fprintf(&sb, "    dir: work/%s\n", t.ID)
-			pre = "{{.ROOT_DIR}}/"
-		}
-		if t.Dep >= 0 {
-			fmt.Fprintf(&sb, "    deps: [%s]\n", yqH(p.Tasks[t.Dep].Name))
-		}
-		sb.WriteString("    sources:\n")
-		for _, g := range t.Sources {
-			if g.Exclude {
-				fmt.Fprintf(&sb, "      - exclude: %s\n", yqH(pre+g.Pat))
-			} else {
-				fmt.Fprintf(&sb, "      - %s\n", yqH(pre+g.Pat))
-			}
-		}
-		if t.Generates {
-			fmt.Fprintf(&sb, "    generates:\n      - %s\n", yqH(pre+"out/"+t.ID+".gen"))
-		}
-		if t.Status {
-			fmt.Fprintf(&sb, "    status:\n      - %s\n", yqH("test -f "+pre+"ctl/status-"+t.ID))
-		}
-		sb.WriteString("    cmds:\n")
-		fmt.Fprintf(&sb, "      - %s\n", yqH("echo b:"+t.ID+" >> "+pre+"trace.log"))
-		fmt.Fprintf(&sb, "      - %s\n", yqH("test ! -f "+pre+"ctl/fail-"+t.ID+"-1"))
-		if t.Call {
-			fmt.Fprintf(&sb, "      - task: chk-%s\n", t.ID)
-		}
-		if t.Generates {
-			fmt.Fprintf(&sb, "      - %s\n", yqH("echo generated > "+pre+"out/"+t.ID+".gen"))
-		}
-		fmt.Fprintf(&sb, "      - %s\n", yqH("test ! -f "+pre+"ctl/fail-"+t.ID+"-2"))
-		fmt.Fprintf(&sb, "      - %s\n", yqH("echo e:"+t.ID+" >> "+pre+"trace.log"))
 	}
 	for _, t := range p.Tasks {
 		if t.Call {
@@ -196,8 +178,86 @@ func (p *hProj) YAML() string {
 	for _, t := range p.Tasks {
 		fmt.Fprintf(&sb, "  both-%s:\n    desc: wrapper\n    deps: [%s, boom]\n", t.ID, yqH(t.Name))
 	}
-	// tasks with a dir: run there; their files are addressed from the project root
-	return sb.String()
+	m := map[string]string{"Taskfile.yml": sb.String()}
+	if hasInc {
+		var ib strings.Builder
+		ib.WriteString("version: '3'\ntasks:\n")
+		for _, t := range p.Tasks {
+			if t.Inc {
+				p.renderTask(&ib, t)
+			}
+		}
+		m["inc/Taskfile.yml"] = ib.String()
+	}
+	return m
+}
+
+func (p *hProj) YAML() string {
+	f := p.Files()
+	s := f["Taskfile.yml"]
+	if inc, ok := f["inc/Taskfile.yml"]; ok {
+		s += "--- inc/Taskfile.yml\n" + inc
+	}
+	return s
+}
+
+func (p *hProj) renderTask(sb *strings.Builder, t *hTask) {
+	key := t.Name
+	if t.Inc {
+		key = t.ID // local name inside the included file; callable as inc:<id>
+	}
+	fmt.Fprintf(sb, "  %s:\n    desc: task %s\n", yqH(key), t.ID)
+	if t.Label != "" {
+		fmt.Fprintf(sb, "    label: %s\n", t.Label)
+	}
+	if t.Method != "" {
+		fmt.Fprintf(sb, "    method: %s\n", t.Method)
+	}
+	if t.Prompt {
+		fmt.Fprintf(sb, "    prompt: PROMPT-%s\n", t.ID)
+	}
+	pre := ""
+	if t.Dir {
+		// the task runs in its own (initially missing) directory; everything is addressed from the root
+		fmt.Fprintf(sb, "    dir: work/%s\n", t.ID)
+		pre = "{{.ROOT_DIR}}/"
+	}
+	if t.ShVar {
+		fmt.Fprintf(sb, "    vars:\n      SV:\n        sh: echo sv-%s\n", t.ID)
+	}
+	if t.Dep >= 0 {
+		d := p.Tasks[t.Dep]
+		dn := d.Name
+		if t.Inc && d.Inc {
+			dn = d.ID
+		}
+		fmt.Fprintf(sb, "    deps: [%s]\n", yqH(dn))
+	}
+	sb.WriteString("    sources:\n")
+	for _, g := range t.Sources {
+		if g.Exclude {
+			fmt.Fprintf(sb, "      - exclude: %s\n", yqH(pre+g.Pat))
+		} else {
+			fmt.Fprintf(sb, "      - %s\n", yqH(pre+g.Pat))
+		}
+	}
+	if t.Generates {
+		fmt.Fprintf(sb, "    generates:\n      - %s\n", yqH(pre+"out/"+t.ID+".gen"))
+	}
+	if t.Status {
+		fmt.Fprintf(sb, "    status:\n      - %s\n", yqH("test -f "+pre+"ctl/status-"+t.ID))
+	}
+	sb.WriteString("    cmds:\n")
+	fmt.Fprintf(sb, "      - %s\n", yqH("echo b:"+t.ID+" >> "+pre+"trace.log"))
+	fmt.Fprintf(sb, "      - %s\n", yqH("test ! -f "+pre+"ctl/fail-"+t.ID+"-1"))
+	if t.Call {
+		fmt.Fprintf(sb, "      - task: chk-%s\n", t.ID)
+	}
+	if t.Generates {
+		fmt.Fprintf(sb, "      - %s\n", yqH("echo generated > "+pre+"out/"+t.ID+".gen"))
+	}
+	fmt.Fprintf(sb, "      - %s\n", yqH("test ! -f "+pre+"ctl/fail-"+t.ID+"-2"))
+	fmt.Fprintf(sb, "      - %s\n", yqH("echo e:"+t.ID+" >> "+pre+"trace.log"))
 }
 
 func yqH(s string) string { return "'" + strings.ReplaceAll(s, "'", "''") + "'" }
@@ -634,7 +694,9 @@ func runH(t *testing.T, ch *vs.Choices, prop, tier string, render bool) *vs.RunO
 				stamp(rel)
 			}
 			// initial tree at simulated time 0
-			write("Taskfile.yml", yaml)
+			for name, content := range p.Files() {
+				write(name, content)
+			}
 			for _, f := range hInitialFiles {
 				write(f, "content of "+f+"\n")
 			}
@@ -981,7 +1043,7 @@ func runH(t *testing.T, ch *vs.Choices, prop, tier string, render bool) *vs.RunO
 	}
 	out.NonTrivial = nInv >= 2
 	if render {
-		out.Rendered = map[string]any{"files": map[string]string{"Taskfile.yml": yaml}, "history": hs, "trace": trace, "strategy": out.Strategy, "schedule": log, "steps": out.Steps}
+		out.Rendered = map[string]any{"files": p.Files(), "history": hs, "trace": trace, "strategy": out.Strategy, "schedule": log, "steps": out.Steps}
 	}
 	return out
 }
